@@ -24,7 +24,7 @@ RULE = ("programs of 0..12 directives per step over 1..3 steps (incremental or n
         "distinct = distinct call lists; non-trivial = at least 5 directives")
 TRUSTED = ["std::ostream integer formatting = decimal"]
 ASSUMPTIONS = ["display names are pairwise distinct, contain no blank-delimited separators and are not of the form x_<n>; every named atom occurs in some statement",
-               "sum weights are >= 0 (aspif); theory tuples are Paren/Brace/Bracket; term tables have no cycles; ':' and ';' are not used as theory operators",
+               "sum weights are >= 0 (aspif); theory tuples are Paren/Brace/Bracket; term tables have no cycles and no term is nested deeper than 10000 levels (the writer reports an error beyond that: D17); ':' and ';' are not used as theory operators",
                "the name table is a vector indexed by atom id: naming atom 2^31-1 allocates 8 GB (allocation refusals are classified, not counted)", "D8: nested operator terms render without parentheses and only the last of several names of an atom is shown (known findings)"]
 TECHNIQUE = "Lean 4 theorems on the writer model (sum≍count satisfaction equivalence, line count, totality, rule shape, name lookup) + differential correspondence with the real AspifTextOutput + independent reference parser as oracle"
 LEVEL_TEXT = ("C06_count_equiv: for EVERY bound, weight w > 0 and number of true literals, w·n ≥ bound ⇔ n ≥ (bound + w − 1) / w with C++ division — the count the writer stores has the same "
